@@ -581,7 +581,7 @@ func main() {
 			runSchedule(res, cases, o.Seed, p, sch, "pairs")
 		}
 	}
-	n3 := o.Pick(300, 12000)
+	n3 := o.Pick(600, 12000)
 	kinds := []string{"mimic", "mimic", "mimic", "direct", "direct", "foreign"}
 	ks := []keyT{k0, k0, k0, k1, k0sc}
 	for i := 0; i < n3; i++ {
